@@ -682,7 +682,33 @@ def density(ctx):
 
 
 # ------------------------------------------------------------------ drums
+def default_table_only_as_fallback(ctx, rule='DRUMS/default-table-only-as-fallback'):
+  """MultiDrumOneHotEncoding takes its drum types from its argument; DEFAULT_DRUM_TYPE_PITCHES is what the argument *defaults to*.
+  Inside the class the module constant may only stand as the value bound to the table in use (a plain assignment or one arm of a
+  conditional expression).  Its length, or a loop over it, describes the default table whatever table the encoding was built with."""
+  mi = ctx.P.module('drums_encoder_decoder')
+  ci = mi.classes.get('MultiDrumOneHotEncoding')
+  if ci is None:
+    return
+  n = 0
+  for m in ci.methods.values():
+    pm = U.parents(m.node)
+    for x in ast.walk(m.node):
+      if not (isinstance(x, ast.Name) and x.id == 'DEFAULT_DRUM_TYPE_PITCHES' and isinstance(x.ctx, ast.Load)):
+        continue
+      n += 1
+      par = pm.get(id(x))
+      ok = (isinstance(par, ast.Assign) and par.value is x) or (isinstance(par, ast.IfExp) and x in (par.body, par.orelse)) or \
+          (isinstance(par, ast.BoolOp) and isinstance(par.op, ast.Or) and par.values[-1] is x)
+      ctx.ob(rule, m, par if isinstance(par, ast.AST) else x, ok, 'the default table is bound as the table in use' if ok else
+             '%s uses the module constant DEFAULT_DRUM_TYPE_PITCHES in `%s`: an encoding built with another table (3 drum types, 11) reports the size of the default one - num_classes that '
+             'decode_event does not cover, or labels outside it' % (m.qualname, norm_text(par)[:60]), construct='%s: DEFAULT_DRUM_TYPE_PITCHES only as fallback' % m.qualname, definite=True)
+  if n == 0:
+    ctx.ob(rule, ci, ci.node, True, 'the class does not name the default table', construct='DEFAULT_DRUM_TYPE_PITCHES only as fallback')
+
+
 def drums(ctx):
+  default_table_only_as_fallback(ctx)
   mi = ctx.P.module('drums_encoder_decoder')
   fd = fold.Folder(ctx.P, ctx.S)
   tab = fold.need(lambda: fd.module_const(mi, 'DEFAULT_DRUM_TYPE_PITCHES'), 'DEFAULT_DRUM_TYPE_PITCHES')
